@@ -9,7 +9,13 @@
        idc    "absent" | "lower" | "upper"      spelling of the id value (upper = upper/mixed case hex)
        kc     "lower" | "upper"                 spelling of the TXT keys
        c, s, sf, ff, ci   ABSENT | BAD (not a number) | ODD (number-like: sign, blanks, ...) | n >= 0
-       addrs  sequence over {"v4","v6","ll4","ll6","un4","un6"}  (global / link-local / unspecified)
+       addrs  sequence over {"v4","v6","ll4","ll6","un4","un6"}  (usable / link-local / unspecified), in the
+              order the records were advertised
+       av     address variety 0..9: which concrete texts stand for "v4" / "v6" in this record - IPv4 texts
+              whose first digit is 1..9 (10.0.k.5, 192.168.k.2, 203.0.113.k, 8.8.4.k, 99.1.2.k, 34.., 45..,
+              56.., 67.., 78..) paired with IPv6 global / ULA texts starting with 2 or f (2001:db8::, 2a00:1450::,
+              fd12:3456::, fc00::, 2600:1f18::).  The expected outcome does not depend on it: "IPv4 first" is
+              about the address family, not about how an address is spelled.
    BLE blob:     [kind |-> "ble", len, company, type, sf, ci, s, c]
        len    number of bytes of manufacturer data kept (a full advertisement has 19; 15 without
               the setup hash; more than 19 = trailing bytes)
